@@ -42,3 +42,116 @@ fn kx_token_factory_chain() {
     assert!(t0.inner.same_source_as(slot) && t1.inner.same_source_as(slot) && t2.inner.same_source_as(slot), "sub-tokens belong to the source");
     assert!(tf.registration_token() == r0, "registration token is stable");
 }
+
+// ---------------------------------------------------------------------------------------------------------------
+// BOUNDED twin of unit transient (C18): every sequence of up to 3 operations on a TransientSource whose children are
+// instrumented mocks. The mock checks the child-side registration protocol (register only while unregistered,
+// reregister/unregister only while registered, never dropped while registered); its register / unregister may fail
+// nondeterministically. Uses only the public API of TransientSource, so it decides any body of those functions.
+mod kx_transient {
+    use crate::sources::transient::TransientSource;
+    use crate::{EventSource, Poll, PostAction, Readiness, Token, TokenFactory};
+    use crate::token::TokenInner;
+
+    #[derive(Debug)]
+    pub struct MockErr;
+    impl std::fmt::Display for MockErr { fn fmt(&self, _: &mut std::fmt::Formatter<'_>) -> std::fmt::Result { Ok(()) } }
+    impl std::error::Error for MockErr {}
+
+    pub struct Mock { registered: bool, viol: *mut u8, calls: *mut u8 }
+    impl Mock {
+        fn flag(&self, code: u8) { unsafe { if *self.viol == 0 { *self.viol = code; } } }
+    }
+    impl Drop for Mock {
+        fn drop(&mut self) { if self.registered { self.flag(4); } }
+    }
+    impl EventSource for Mock {
+        type Event = ();
+        type Metadata = ();
+        type Ret = ();
+        type Error = MockErr;
+        fn process_events<F: FnMut((), &mut ())>(&mut self, _: Readiness, _: Token, mut cb: F) -> Result<PostAction, MockErr> {
+            if !self.registered { self.flag(5); }
+            unsafe { *self.calls += 1; }
+            cb((), &mut ());
+            // (Disable is excluded: known finding F6a)
+            let a: u8 = kani::any();
+            Ok(match a % 3 { 0 => PostAction::Continue, 1 => PostAction::Reregister, _ => PostAction::Remove })
+        }
+        fn register(&mut self, _: &mut Poll, _: &mut TokenFactory) -> crate::Result<()> {
+            if self.registered { self.flag(1); }
+            if kani::any() { return Err(crate::Error::InvalidToken); }
+            self.registered = true;
+            Ok(())
+        }
+        fn reregister(&mut self, _: &mut Poll, _: &mut TokenFactory) -> crate::Result<()> {
+            if !self.registered { self.flag(2); }
+            if kani::any() { return Err(crate::Error::InvalidToken); }
+            Ok(())
+        }
+        fn unregister(&mut self, _: &mut Poll) -> crate::Result<()> {
+            if !self.registered { self.flag(3); }
+            if kani::any() { return Err(crate::Error::InvalidToken); }
+            self.registered = false;
+            Ok(())
+        }
+    }
+
+    fn transient_ops(n: usize) {
+        let mut viol: u8 = 0;
+        let mut calls: u8 = 0;
+        let vp: *mut u8 = &mut viol;
+        let cp: *mut u8 = &mut calls;
+        // the Poll is only handed through to the children, which ignore it: never read
+        let mut poll_mem = core::mem::MaybeUninit::<Poll>::uninit();
+        let poll: &mut Poll = unsafe { &mut *poll_mem.as_mut_ptr() };
+        let mut tf = TokenFactory::new(TokenInner::from(0usize));
+        let mut ts = TransientSource::from(Mock { registered: false, viol: vp, calls: cp });
+        let mut parent_registered = false;
+        // the documented protocol: a re-registration is requested after each change (remove / replace / a child asking for
+        // it) -- no second change before a parent register / reregister has gone through. (A second remove()/replace() after
+        // a re-registration that FAILED half-way drops the old child while it is still registered; the property is read as
+        // not covering that history: the change is still pending.)
+        let mut pending = false;
+        let mut step = 0;
+        while step < n {
+            let op: u8 = kani::any();
+            kani::assume(op < 6);
+            match op {
+                0 => { kani::assume(!parent_registered); if ts.register(poll, &mut tf).is_ok() { parent_registered = true; pending = false; } }
+                1 => { kani::assume(parent_registered); if ts.reregister(poll, &mut tf).is_ok() { pending = false; } }
+                2 => { kani::assume(parent_registered); if ts.unregister(poll).is_ok() { parent_registered = false; } }
+                3 => {
+                    kani::assume(parent_registered);
+                    let r = ts.process_events(Readiness::EMPTY, Token { inner: TokenInner::from(0usize) }, |_, _| {});
+                    if let Ok(a) = r {
+                        assert!(a == PostAction::Continue || a == PostAction::Reregister, "only Continue / Reregister reach the parent");
+                        if a == PostAction::Reregister { pending = true; }
+                    }
+                }
+                4 => { kani::assume(!pending); ts.remove(); pending = true; }
+                _ => { kani::assume(!pending); ts.replace(Mock { registered: false, viol: vp, calls: cp }); pending = true; }
+            }
+            assert!(viol != 1, "child registered while registered");
+            assert!(viol != 2, "child re-registered while unregistered");
+            assert!(viol != 3, "child unregistered while unregistered");
+            assert!(viol != 4, "child dropped while registered");
+            assert!(viol != 5, "events forwarded to an unregistered child");
+            step += 1;
+        }
+        kani::cover!(calls > 0 && !parent_registered, "a child processed events and the wrapper was unregistered again");
+        // what is left of the wrapper is only dropped after the parent unregistered it
+        core::mem::forget(ts);
+    }
+
+    /// quick tier: every sequence of 4 operations
+    #[kani::proof]
+    #[kani::unwind(6)]
+    fn kx_transient_ops4() { transient_ops(4) }
+
+    /// thorough tier: every sequence of 5 operations (long enough for: register, replace, re-registration refused for the
+    /// replacement, a further change, re-registration -- defect F15)
+    #[kani::proof]
+    #[kani::unwind(7)]
+    fn kx_transient_ops5() { transient_ops(5) }
+}
